@@ -2327,8 +2327,8 @@ def cbw(info):
 
     mask = ExprCond(get_op_msb(src), byte_h_f, byte_h_0)
     e = []
-    e.append(ExprAff(a, ExprCompose([(a,    0, s//2),
-                                     (mask, s//2, s)])))
+    e.append(ExprAff(dst, ExprCompose([(src,  0, s//2),
+                                       (mask, s//2, s)])))
     return e
 
 def cwd(info):
